@@ -46,13 +46,8 @@ def showInst (i : Inst) : String :=
 
 def showDErr (e : DErr) : String := showErr e
 
-def showPErr : PErr → String
+def showIErr : IErr → String
   | .complete => "Complete"
-  | .consumerStop => "ConsumerStopRequested"
-  | .consumerError k => s!"ConsumerError:script{k}"
-  | .headerIncomplete e => s!"HeaderIncomplete:{showDErr e}"
-  | .headerIncorrect => "HeaderIncorrect"
-  | .endiannessUnsupported => "EndiannessUnsupported"
   | .wordCountZero o i => s!"WordCountZero:{o}:{i}"
   | .opcodeUnknown o i op => s!"OpcodeUnknown:{o}:{i}:{op}"
   | .operandExpected o i => s!"OperandExpected:{o}:{i}"
@@ -60,6 +55,14 @@ def showPErr : PErr → String
   | .operandError e => s!"OperandError:{showDErr e}"
   | .typeUnsupported o i => s!"TypeUnsupported:{o}:{i}"
   | .specConstantOpIntegerIncorrect o i => s!"SpecConstantOpIntegerIncorrect:{o}:{i}"
+
+def showPErr : PErr → String
+  | .consumerStop => "ConsumerStopRequested"
+  | .consumerError k => s!"ConsumerError:script{k}"
+  | .headerIncomplete e => s!"HeaderIncomplete:{showDErr e}"
+  | .headerIncorrect => "HeaderIncorrect"
+  | .endiannessUnsupported => "EndiannessUnsupported"
+  | .inst e => showIErr e
 
 def parseScript (toks : List String) : Option (List (Nat × Action)) :=
   toks.mapM (fun t => match t.splitOn ":" with
